@@ -25,20 +25,25 @@ def dictionary():
             for v in vals:
                 toks.add("%s:%s" % (m, v))
                 toks.add("/%s:%s" % (m, v))
+    for c in gen.tree_constants():          # whatever the tree under test compares its input with is written down in it
+        if "\x00" not in c:
+            toks.add(c)
+            toks.add(c.lower())
     return sorted(toks)
 
 
-def campaign(part, which, runs, procs=None):
+def campaign(part, which, runs, procs=None, only=None):
     """-> note for the evidence; failures are re-checked through the property's own check function"""
-    from ..props import c04, c13
-    fn = {"accept": c04.check_accept, "text": c13.check_text}[which]
+    from ..props import c04, c08, c12, c13, c16, c17
+    fns = {"accept": c04.check_accept, "text": c13.check_text, "dialogue": c16.check_dialogue, "builder": c08.check_builder, "cli": c17.check_cli,
+           "rh_parse": c12.check_rh_parse}
     procs = procs or runner.NPROC
     work = tempfile.mkdtemp(prefix="vffuzz")
     try:
         dpath = os.path.join(work, "dict.txt")
         with open(dpath, "w") as f:
             for t in dictionary():
-                f.write('"%s"\n' % t.replace("\\", "\\\\").replace('"', '\\"'))
+                f.write('"%s"\n' % "".join(chr(b) if 32 <= b < 127 and chr(b) not in '\\"' else "\\x%02X" % b for b in t.encode("utf-8")))
         jobs = []
         rng = random.Random(runner.mix(runner.SEED, 404))
         for i in range(procs):
@@ -70,7 +75,8 @@ def campaign(part, which, runs, procs=None):
                     for line in f:
                         rec = json.loads(line)
                         nfail += 1
-                        part.check(rec["check"], fn, rec["input"])
+                        if only is None or rec["check"] in only:
+                            part.check(rec["check"], fns[rec["check"]], rec["input"])
             elif p.returncode != 0 and "property violated" not in text:
                 part.harness_errors.append("atheris process failed (status %s): %s" % (p.returncode, text[-600:]))
         part.evaluations += execs
